@@ -53,7 +53,7 @@ def instances(tier, seed):
         for method, intg in (('MS', 'rk'), ('SS', 'expl_euler'), ('DC', None)):
             ms = models() + ([scaled_dae()] if method == 'DC' else [])
             for s in ms:
-                for when in ('before', 'after', 'edited', 'load-edit'):
+                for when in ('before', 'after', 'edited', 'edited-method', 'load-edit', 'resave'):
                     h = H[n % len(H)]
                     N = [2, 3][n % 2]
                     M = [1, 2][(n // 2) % 2]
@@ -80,7 +80,7 @@ def instances(tier, seed):
         if method == 'DC' and not fam.rational_tables(degree, scheme) and not fam.horizon_symbolic(h):
             degree, scheme = 2, 'radau'
         add(spec=s, cfg=Cfg(method, N=N, M=M, intg='rk' if s.nxt is not None else (intg or 'rk'), grid=rr.choice(grids), degree=degree, scheme=scheme),
-            when=rr.choice(['before', 'after', 'edited', 'load-edit']), soft=True, family='random', twin=False)
+            when=rr.choice(['before', 'after', 'edited', 'load-edit', 'resave']), soft=True, family='random', twin=False)
     return items
 
 
@@ -133,17 +133,38 @@ def run(item):
             b.ocp.subject_to(b.mx(extra.lhs) <= b.mx(extra.rhs))
         spec = copy.deepcopy(spec)
         spec.cons = list(spec.cons) + [extra]
+    if when == 'edited-method':
+        # transcribe, then replace the method object, then save: the transcription still attached to the OLD method must not get in the way
+        from ..extract import make_method
+        with quiet():
+            b.ocp._transcribed
+            cfg = copy.deepcopy(cfg)
+            cfg.N = cfg.N + 1
+            b.ocp.method(make_method(cfg))
+            b.cfg = cfg
     fd, path = tempfile.mkstemp(suffix='.rockit', prefix='rvc18_')
     os.close(fd)
     try:
         try:
             with quiet():
+                if when == 'resave':
+                    # the SAME file name is written twice: first the problem as declared, then the edited problem; the second load must see the edit
+                    b.ocp.save(path)
+                    stale = Ocp.load(path)
+                    extra = Con('<=', X(0), 11)
+                    b.ocp.subject_to(b.mx(extra.lhs) <= b.mx(extra.rhs))
+                    spec = copy.deepcopy(spec)
+                    spec.cons = list(spec.cons) + [extra]
+                    gp_ = [p_ for p_ in spec.params if p_.grid == '' and p_.n == 1 and p_.name not in ('pt0', 'pT')]
+                    if gp_:
+                        b.ocp.set_value(b.psym[gp_[0].name], 1.75)
+                        gp_[0].value = Fr(7, 4)
                 b.ocp.save(path)
                 ocp2 = Ocp.load(path)
         except Exception as e:
             return {'status': 'violation', 'stats': {}, 'obligations': 1, 'discharged': 0, 'shape': '%s|%s' % (cfg.tag(), when),
                     'violations': [{'property': PROP, 'key': 'save-raises|%s|save-%s' % (cfg.method, when), 'label': 'save/load', 'cfg': repr(cfg), 'spec': spec.note,
-                                    'detail': 'ocp.save/Ocp.load raised for a save %s: %s' % ({'edited': 'after a transcription followed by subject_to', 'after': 'after a transcription', 'before': 'before the first transcription'}[when], str(e).strip().splitlines()[-1][:200])}]}
+                                    'detail': 'ocp.save/Ocp.load raised for a save %s: %s' % ({'edited': 'after a transcription followed by subject_to', 'edited-method': 'after a transcription followed by method(...)', 'after': 'after a transcription', 'before': 'before the first transcription', 'load-edit': 'before the first transcription', 'resave': 'to the same file name before and after an edit'}[when], str(e).strip().splitlines()[-1][:200])}]}
     finally:
         if os.path.exists(path):
             os.remove(path)
